@@ -284,8 +284,13 @@ pub enum BStage {
     JoinSide(KeyFn, i64, KeyFn, i64),
     /// `merge(side)`
     MergeSide,
-    /// nested `iterate`: the items of its last round followed by its final state
+    /// nested `iterate`, the enclosing body continues with its STATE stream (the items are drained)
     Iterate(Box<LoopSpec>),
+    /// nested `iterate`, the enclosing body continues with its ITEMS stream (the elements of the last
+    /// inner round, per outer round; the state is drained) — needs /repo >= 9fb958f (finding F16)
+    IterItems(Box<LoopSpec>),
+    /// nested `iterate`, items merged with the in-loop state stream
+    IterBoth(Box<LoopSpec>),
 }
 
 #[derive(Clone, Debug, PartialEq)]
@@ -409,6 +414,14 @@ fn loop_words(l: &LoopSpec, w: &mut Vec<String>) {
                 w.push("iterate".into());
                 loop_words(l2, w);
             }
+            BStage::IterItems(l2) => {
+                w.push("iteritems".into());
+                loop_words(l2, w);
+            }
+            BStage::IterBoth(l2) => {
+                w.push("iterboth".into());
+                loop_words(l2, w);
+            }
             BStage::GbWin(f, k, n, sl) => w.extend(["gbwin".to_string(), f.to_string(), k.to_string(), n.to_string(), sl.to_string()]),
             BStage::GbFold(f, k, g) => w.extend(["gbfold".to_string(), f.to_string(), k.to_string(), g.to_string()]),
             BStage::JoinSide(f1, k1, f2, k2) => w.extend(["joinside".to_string(), f1.to_string(), k1.to_string(), f2.to_string(), k2.to_string()]),
@@ -472,6 +485,8 @@ fn parse_loop(t: &mut Toks, depth: usize, has_side: bool) -> Option<LoopSpec> {
             "reduce" => BStage::Reduce(Agg::parse(t.next()?)?),
             "replay" => BStage::Replay(Box::new(parse_loop(t, depth + 1, has_side)?)),
             "iterate" => BStage::Iterate(Box::new(parse_loop(t, depth + 1, has_side)?)),
+            "iteritems" => BStage::IterItems(Box::new(parse_loop(t, depth + 1, has_side)?)),
+            "iterboth" => BStage::IterBoth(Box::new(parse_loop(t, depth + 1, has_side)?)),
             "gbwin" => {
                 let (f, k, n, sl) = (KeyFn::parse(t.next()?)?, t.int()?, t.usize()?, t.usize()?);
                 if n == 0 || sl == 0 {
@@ -818,7 +833,7 @@ pub fn side_uses(body: &[BStage]) -> usize {
     body.iter()
         .map(|s| match s {
             BStage::JoinSide(..) | BStage::MergeSide => 1,
-            BStage::Replay(l) | BStage::Iterate(l) => side_uses(&l.body),
+            BStage::Replay(l) | BStage::Iterate(l) | BStage::IterItems(l) | BStage::IterBoth(l) => side_uses(&l.body),
             _ => 0,
         })
         .sum()
@@ -882,11 +897,21 @@ fn build_body(mut s: P, body: &[BStage], state: IterationStateHandle<i64>, mut s
                 let c = side_uses(&l.body);
                 let mine = sides.split_off(sides.len() - c.min(sides.len()));
                 let (st, out) = build_iterate(s, &l, mine);
-                // the items output of a nested `iterate` leaves ALL enclosing loops (iterate.rs creates its
-                // output block with an empty iteration context), so only the state stream can continue
-                // the outer body; the items are drained
                 out.for_each(|_| {});
                 erase(st.shuffle())
+            }
+            BStage::IterItems(l) => {
+                let c = side_uses(&l.body);
+                let mine = sides.split_off(sides.len() - c.min(sides.len()));
+                let (st, out) = build_iterate(s, &l, mine);
+                st.for_each(|_| {});
+                out
+            }
+            BStage::IterBoth(l) => {
+                let c = side_uses(&l.body);
+                let mine = sides.split_off(sides.len() - c.min(sides.len()));
+                let (st, out) = build_iterate(s, &l, mine);
+                erase(out.merge(erase(st.shuffle())))
             }
         };
     }
@@ -1333,7 +1358,7 @@ fn gen_loop(rng: &mut Rng, depth: usize, iterate: bool, size: usize, side: Optio
     let mut side_used = false;
     for i in 0..n {
         let last = i + 1 == n;
-        let st = match rng.below(22) {
+        let st = match rng.below(24) {
             0..=2 => {
                 let f = *rng.pick(&[MapFn::Add, MapFn::Mul, MapFn::Mod, MapFn::Neg, MapFn::Id]);
                 BStage::Map(f, gen_k(rng))
@@ -1364,10 +1389,14 @@ fn gen_loop(rng: &mut Rng, depth: usize, iterate: bool, size: usize, side: Optio
                 size = 1;
                 BStage::Replay(Box::new(l))
             }
-            12 if depth == 0 && unlimited => {
-                let l = gen_loop(rng, depth + 1, true, size, None);
+            12 | 22 | 23 if depth == 0 && unlimited => {
+                let l = Box::new(gen_loop(rng, depth + 1, true, size, None));
                 size += 1;
-                BStage::Iterate(Box::new(l))
+                match rng.below(3) {
+                    0 => BStage::Iterate(l),
+                    1 => BStage::IterItems(l),
+                    _ => BStage::IterBoth(l),
+                }
             }
             13..=15 => {
                 // keyed count windows: per-key counts that are / are not multiples of the size
